@@ -5,17 +5,19 @@ use std::cell::RefCell;
 pub mod sim {
     use super::*;
     #[derive(Clone, Debug, Default)]
-    pub struct Stats { pub terminals: u64, pub jobs: u64, pub joins: u64, pub nontrivial_perms: u64, pub splits: u64 }
+    pub struct Stats { pub terminals: u64, pub jobs: u64, pub joins: u64, pub nontrivial_perms: u64, pub splits: u64, pub swapped_joins: u64, /// running hash of every scheduling decision taken (permutations, cuts, join orders)
+        pub fingerprint: u64 }
     pub(crate) struct Sched { pub state: u64, pub threads: usize, pub identity: bool, pub stats: Stats }
     thread_local! { pub(crate) static SCHED: RefCell<Sched> = RefCell::new(Sched{state:0x9E3779B97F4A7C15, threads:1, identity:true, stats:Stats::default()}); }
     pub fn configure(seed: u64, threads: usize, identity: bool) { SCHED.with(|s| { let mut s=s.borrow_mut(); s.state=seed ^ 0x9E3779B97F4A7C15; s.threads=threads.max(1); s.identity=identity; s.stats=Stats::default(); }) }
     pub fn stats() -> Stats { SCHED.with(|s| s.borrow().stats.clone()) }
     pub(crate) fn next() -> u64 { SCHED.with(|s| { let mut s=s.borrow_mut(); s.state=s.state.wrapping_add(0x9E3779B97F4A7C15); let mut z=s.state; z=(z^(z>>30)).wrapping_mul(0xBF58476D1CE4E5B9); z=(z^(z>>27)).wrapping_mul(0x94D049BB133111EB); z^(z>>31) }) }
+    pub(crate) fn fold(x: u64) { SCHED.with(|s| { let mut s=s.borrow_mut(); let f=&mut s.stats.fingerprint; *f = (*f ^ x).wrapping_mul(0x100000001B3).rotate_left(17); }) }
     pub(crate) fn below(n: usize) -> usize { if n<=1 {0} else { (next() % n as u64) as usize } }
     pub(crate) fn perm(n: usize) -> Vec<usize> {
         let mut p: Vec<usize> = (0..n).collect();
         let ident = SCHED.with(|s| { let mut s=s.borrow_mut(); s.stats.terminals+=1; s.stats.jobs+=n as u64; s.identity });
-        if !ident { for i in (1..n).rev() { let j=below(i+1); p.swap(i,j); } if p.iter().enumerate().any(|(i,&x)| i!=x) { SCHED.with(|s| s.borrow_mut().stats.nontrivial_perms+=1); } }
+        if !ident { for i in (1..n).rev() { let j=below(i+1); p.swap(i,j); } if p.iter().enumerate().any(|(i,&x)| i!=x) { SCHED.with(|s| s.borrow_mut().stats.nontrivial_perms+=1); for (i,&x) in p.iter().enumerate() { fold(((i as u64)<<32) ^ x as u64); } } }
         p
     }
     /// contiguous split of 0..n into k>=1 chunks
@@ -26,6 +28,7 @@ pub mod sim {
         let k = 1 + below(n.min(SCHED.with(|s| s.borrow().threads*2)));
         let mut pts: Vec<usize> = (0..k-1).map(|_| 1+below(n-1+ (n==1) as usize)).collect(); pts.push(0); pts.push(n); pts.sort(); pts.dedup();
         SCHED.with(|s| s.borrow_mut().stats.splits += (pts.len()-1) as u64);
+        for &c in &pts { fold(0xC0 ^ ((c as u64) << 8)); }
         pts.windows(2).map(|w| (w[0],w[1])).collect()
     }
 }
@@ -34,7 +37,7 @@ pub fn current_num_threads() -> usize { sim::SCHED.with(|s| s.borrow().threads) 
 
 pub fn join<A, B, RA, RB>(a: A, b: B) -> (RA, RB) where A: FnOnce() -> RA, B: FnOnce() -> RB {
     let ident = sim::SCHED.with(|s| { let mut s=s.borrow_mut(); s.stats.joins+=1; s.identity });
-    if ident || sim::below(2)==0 { let ra=a(); let rb=b(); (ra,rb) } else { let rb=b(); let ra=a(); (ra,rb) }
+    if ident || sim::below(2)==0 { let ra=a(); let rb=b(); (ra,rb) } else { sim::SCHED.with(|s| s.borrow_mut().stats.swapped_joins+=1); sim::fold(0x10117); let rb=b(); let ra=a(); (ra,rb) }
 }
 
 pub mod iter {
